@@ -138,6 +138,14 @@ func toPropertyDescriptor(rt *runtime, value Value) property {
 		}
 	}
 
+	// 8.10.5 reads the fields in the order enumerable, configurable, value, writable, get, set
+	// (steps 3-8) and only then rejects an accessor that also has a value or writable (step 9).
+	var dataValue Value
+	hasValue := objectDescriptor.hasProperty("value")
+	if hasValue {
+		dataValue = objectDescriptor.get("value")
+	}
+
 	if objectDescriptor.hasProperty("writable") {
 		if objectDescriptor.get("writable").bool() {
 			descriptor.writeOn()
@@ -181,14 +189,12 @@ func toPropertyDescriptor(rt *runtime, value Value) property {
 		if descriptor.writeSet() {
 			panic(rt.panicTypeError("toPropertyDescriptor descriptor writeSet"))
 		}
-		descriptor.value = propertyGetSet{getter, setter}
-	}
-
-	if objectDescriptor.hasProperty("value") {
-		if getterSetter {
+		if hasValue {
 			panic(rt.panicTypeError("toPropertyDescriptor value getterSetter"))
 		}
-		descriptor.value = objectDescriptor.get("value")
+		descriptor.value = propertyGetSet{getter, setter}
+	} else if hasValue {
+		descriptor.value = dataValue
 	}
 
 	return descriptor
